@@ -43,6 +43,8 @@ enum Op {
 	MineR,
 	/// the user makes the wallet's other account the active one (an account whose log ids overlap with default's)
 	SwitchAcct,
+	/// a new payment initiated and reserved in one go (selects among whatever is spendable at that moment)
+	InitLock,
 }
 
 #[derive(Clone, Copy, Debug, PartialEq)]
@@ -193,6 +195,11 @@ fn do_op(cx: &RunCtx, op: &Op) -> String {
 			Op::SwitchAcct => {
 				let w = cx.world.borrow();
 				w.wallets[0].set_account("acct1")
+			}
+			Op::InitLock => {
+				let w = cx.world.borrow();
+				let s = w.wallets[0].init_send(InitTxArgs { amount: 100_000_000_000, minimum_confirmations: 1, selection_strategy_is_use_all: true, ..Default::default() })?;
+				w.wallets[0].lock_outputs(&s)
 			}
 			Op::FinPostMine => {
 				let tx = {
